@@ -8,10 +8,13 @@ CONSTANTS
   Banned = {}
   Asking = {}
   AskAnswersInHand = TRUE
+  DrainAfterStopped = TRUE
+  FilteredFailAnswers = FALSE
   BufCap = 3
   FixFlushOnStop = TRUE
   MaxResets = 1
   WithStop = TRUE
   Det = TRUE
-  FaultPoints = {"any", "reader-holds-reply", "writer-handoff", "writer-got", "sender-checked", "sender-after-drain", "queues-loaded", "reader-paired"}
+  EmitViolating = FALSE
+  FaultPoints = {"any", "reader-holds-reply", "writer-handoff", "writer-got", "sender-checked", "sender-enqueued", "sender-after-drain", "queues-loaded", "reader-paired"}
 CHECK_DEADLOCK FALSE
